@@ -1,6 +1,9 @@
 #!/bin/sh
 # TLC with a large main-thread stack (JAVA_TOOL_OPTIONS -Xss does not reach the main thread).
 # usage: tlc.sh <heap e.g. 4g> <tlc args...>
+# The depth-first state queue suits trace validation and case enumeration; VERIF_BFS=1 keeps TLC's breadth-first
+# queue (shortest paths to every state: what the reachable-state exploration of a state machine wants).
 HEAP="$1"; shift
-exec java -Xss1g -Xmx"$HEAP" -XX:+UseParallelGC -Dtlc2.tool.queue.IStateQueue=StateDeque \
+if [ -n "$VERIF_BFS" ]; then Q=""; else Q="-Dtlc2.tool.queue.IStateQueue=StateDeque"; fi
+exec java -Xss1g -Xmx"$HEAP" -XX:+UseParallelGC $Q \
   -cp /opt/veriftools/tla/tla2tools.jar:/opt/veriftools/tla/CommunityModules-deps.jar tlc2.TLC "$@"
